@@ -182,7 +182,7 @@ func (BridgeEngine) GenConfig(rng *rand.Rand, prop string, tier string) RunConfi
 		rc.Steps = 80 + rng.IntN(320)
 	}
 	rc.Knobs["ext_start_height"] = fmt.Sprint([]int{1, 3, 40, 1000, 1000, 5_000_000}[rng.IntN(6)])
-	if (prop == "C04" || prop == "C07") && rng.IntN(100) < 35 {
+	if (prop == "C04" || prop == "C07" || prop == "C03") && rng.IntN(100) < 35 {
 		// an IBC voucher is one more representation of the bridged coin (alias), a loop-back channel is open and
 		// deposits may name an IBC target; the transfer module's voucher stock may or may not cover them
 		rc.World.IbcVoucher = &IbcVoucherCfg{Chan: "channel-0", Base: "xusd", ModuleStock: []string{"0", "700", "60000", "1000000000000"}[rng.IntN(4)]}
@@ -1117,6 +1117,26 @@ func mutateClaim(claim cctypes.ExternalClaim, field, val string) error {
 		f.SetString(nv)
 		return nil
 	}
+	if strings.HasPrefix(field, "alias:") {
+		// another spelling of a routing target (hex-encoded string field): the forms the code base's own
+		// target parser produces or accepts for the same text (canonical form, printed form, legacy prefixes)
+		f := rv.FieldByName(strings.TrimPrefix(field, "alias:"))
+		if !f.IsValid() || f.Kind() != reflect.String || !strings.Contains(strings.TrimPrefix(field, "alias:"), "Target") {
+			return fmt.Errorf("alias: not a target field")
+		}
+		raw, err := hex.DecodeString(f.String())
+		if err != nil || len(raw) == 0 {
+			return fmt.Errorf("alias: no target")
+		}
+		alts := targetSpellings(string(raw))
+		var k int
+		fmt.Sscan(val, &k)
+		if k < 0 || k >= len(alts) || alts[k] == string(raw) || alts[k] == "" {
+			return fmt.Errorf("alias: no such spelling")
+		}
+		f.SetString(hex.EncodeToString([]byte(alts[k])))
+		return nil
+	}
 	if strings.HasPrefix(field, "swap:") {
 		// the first two elements of a list field exchanged (the parallel lists keep their order)
 		f := rv.FieldByName(strings.TrimPrefix(field, "swap:"))
@@ -1175,6 +1195,24 @@ func mutateClaim(claim cctypes.ExternalClaim, field, val string) error {
 	}
 	return mutateValue(f, val)
 }
+
+// targetSpellings: other texts that the target parser relates to s.
+func targetSpellings(s string) []string {
+	t := fxtypes.ParseFxTarget(s)
+	out := []string{t.GetTarget(), t.String(), "chain/" + s, strings.TrimPrefix(s, "chain/"), "", ""}
+	switch s {
+	case "erc20":
+		out[4] = "module/evm"
+	case "module/evm":
+		out[4] = "erc20"
+	}
+	if p := strings.Split(s, "/"); len(p) == 3 {
+		out[5] = p[2] + "/" + p[1] + "/" + p[0]
+	}
+	return out
+}
+
+const nTargetSpellings = 6
 
 func mutateValue(f reflect.Value, val string) error {
 	switch f.Kind() {
